@@ -149,6 +149,36 @@ func curveSections(r *vlib.Run) {
 				break
 			}
 		}
+		// the two halves and the curve are independent values: a caller who extends or overwrites
+		// one of them (joining control nets, elevating the degree) leaves the others as they were
+		snapL, snapR, snapB := append(model2d.BezierCurve{}, l...), append(model2d.BezierCurve{}, rr...), append(model2d.BezierCurve{}, b...)
+		junk := model2d.XY(1e9+rng.Float64(), -1e9)
+		switch rng.Intn(4) {
+		case 0:
+			_ = append(l, junk, junk, junk)
+		case 1:
+			_ = append(rr, junk, junk, junk)
+		case 2:
+			_ = append(l[:rng.Intn(n)], junk)
+			l = snapL
+		default:
+			for i := range l {
+				l[i] = junk
+			}
+			snapL = append(model2d.BezierCurve{}, l...)
+		}
+		same := func(a, b model2d.BezierCurve) bool {
+			for i := range a {
+				if a[i] != b[i] {
+					return false
+				}
+			}
+			return len(a) == len(b)
+		}
+		c.Count("bezier.split.halves_extended_or_overwritten_by_the_caller", 1)
+		if !same(rr, snapR) || !same(b, snapB) || (!same(l, snapL) && len(l) == len(snapL)) {
+			c.Violationf("model2d.BezierCurve.Split/halves-independent", w, "after the caller appended to / wrote into one half, the other half or the curve changed: right %v (was %v), curve %v (was %v)", rr, snapR, b, snapB)
+		}
 		c.Count("model2d.BezierCurve.Split", 1)
 		c.Nontrivial(fmt.Sprintf("split|%d|%x|%x", n, ctrl[0][0], t))
 	})
